@@ -35,9 +35,10 @@ static const struct {
   { "userwins",  prof_userwins  },
 };
 
+static vh_args_t a; /* static: the --opt strings it points to stay reachable for LSan */
+
 int main(int argc, char **argv)
 {
-  vh_args_t   a;
   uint64_t    i;
   cfg_case_fn fn = NULL;
   size_t      p;
